@@ -49,7 +49,12 @@ static void verif_delete(uint8_t* p) {
    * operator new returns the same block again. A temporary container that lives for one loop iteration then leaves the
    * allocation counter unchanged, so paths that ran different numbers of iterations still agree on all heap pointers.
    * The reused block keeps its old bytes (reads of uninitialised operator-new memory see stale data, not arbitrary data). */
-  if (found && verif_pool_n > 0 && p == verif_blks[verif_pool_n - 1]) { verif_pool_freed[verif_pool_n - 1] = 0; verif_pool_n--; }
+  if (found && verif_pool_n > 0 && p == verif_blks[verif_pool_n - 1]) {
+    verif_pool_freed[verif_pool_n - 1] = 0; verif_pool_n--;
+    /* blocks below that were deleted earlier (out of stack order) are given back as well */
+#define VERIF_POOL_POP if (verif_pool_n > 0 && verif_pool_freed[verif_pool_n - 1]) { verif_pool_freed[verif_pool_n - 1] = 0; verif_pool_n--; }
+    VERIF_POOL_POP VERIF_POOL_POP VERIF_POOL_POP VERIF_POOL_POP
+  }
 #endif
 }
 #elif defined(VERIF_NEW_BLOCK)
